@@ -38,7 +38,7 @@ ALPHA = {
     'configure': 1, 'xcopy': 2, 'peer': 1, 'views': 1,
     # a few rejected calls (e.g. a load that fails half-way): afterwards
     # every count must still be in-edges + live handles
-    'bad': (3, [53, 65535, 65535]),
+    'bad': (3, [54, 65535, 65535]),
 }
 # find_or_add / configure-toggle are left out when reordering is on
 # (find_or_add: see KNOWN_FINDINGS C09 undecorated entry points)
